@@ -237,7 +237,7 @@ func readsFieldDeep(v ssa.Value, f string) bool {
 
 func c06R3(h H) {
 	r := h.r
-	r.Rule("R3", "mixing rejected: MakeTLSConfig returns a non-nil error on the edge where the Enabled fields of two configs of the same slice differ, and on the non-nil edge of assertConfigsCompatible called for a hostname already present in the map", 2)
+	r.Rule("R3", "mixing rejected: MakeTLSConfig returns a non-nil error on the edge where the Enabled fields of two configs of the same slice differ, returns without error only after the loop holding that comparison ran to exhaustion (empty list excepted), and returns an error on the non-nil edge of assertConfigsCompatible called for a hostname already present in the map", 2)
 	fn := h.fn("R3", tlsPkg, "MakeTLSConfig")
 	if fn == nil {
 		return
@@ -282,6 +282,57 @@ func c06R3(h H) {
 		}
 	}
 	r.Check(okM, "R3", "caskettls.MakeTLSConfig/enabled-mismatch-is-error", fn.Pos(), "a listener whose sites disagree on TLS being enabled is rejected with an error")
+	// the verdict "no error" is given only after EVERY config was compared: each return with a nil error, other
+	// than the one for an empty list, is reachable only through the exhaustion edge of the loop that holds the
+	// comparison (an early "first site is plain HTTP, nothing to do" return would accept HTTP-then-HTTPS)
+	var cmpLoopHead *ssa.BasicBlock
+	var cmpLoop map[*ssa.BasicBlock]bool
+	for e := range mism {
+		cmpLoopHead, cmpLoop = loopOf(e.From)
+	}
+	if cmpLoop == nil {
+		r.Check(false, "R3", "caskettls.MakeTLSConfig/success-only-after-all-compared", fn.Pos(), "the Enabled comparison does not sit in a loop over the configs")
+	} else {
+		exhaust := map[edge]bool{}
+		for _, e := range loopExitEdges(cmpLoop) {
+			if e.From == cmpLoopHead {
+				exhaust[e] = true
+			}
+		}
+		n := 0
+		for _, x := range exitsOf(fn) {
+			rt, isR := x.(*ssa.Return)
+			if !isR {
+				continue
+			}
+			res := retResults(rt)
+			if c, isC := res[len(res)-1].(*ssa.Const); !isC || c.Value != nil {
+				// not a constant nil error: error returns (or a propagated error variable)
+				if !isC {
+					continue
+				}
+			}
+			empty := false
+			for _, g := range guardAtoms(fn, nil, rt) {
+				if x, kind, c, ok := intCmp(g.Cond); ok && c == 0 {
+					if call, isCall := x.(*ssa.Call); isCall && calleeName(&call.Call) == "builtin.len" {
+						if _, isP := call.Call.Args[0].(*ssa.Parameter); isP && ((kind == "eq" && g.Pos) || (kind == "ne" && !g.Pos) || (kind == "gt" && !g.Pos)) {
+							empty = true
+						}
+					}
+				}
+			}
+			if empty {
+				continue
+			}
+			n++
+			r.Check(onlyVia(fn, rt, exhaust), "R3", sprintf("caskettls.MakeTLSConfig/success-only-after-all-compared#%d", n), rt.Pos(),
+				"a result without error (TLS config or 'no TLS') is returned only after the loop compared every config of the listener with its predecessor")
+		}
+		if n == 0 {
+			r.Unresolve("R3", "MakeTLSConfig: no success return found after the comparison loop")
+		}
+	}
 	calls := callsTo(fn, "caskettls.assertConfigsCompatible")
 	okC := len(calls) > 0
 	for _, c := range calls {
